@@ -205,8 +205,9 @@ decision itself is the regenerated `Gen.Matrix.is_*_conformable`, see `conformab
 theorem ensure_forms_correct : Gen.ensureForms =
     [("ensure_square", "is_square()", "SquareMatrixRequired"),
      ("ensure_elementwise_operation_conformable", "is_elementwise_operation_conformable(rhs)", "ShapeNotConformable"),
-     ("ensure_multiplication_like_operation_conformable", "is_multiplication_like_operation_conformable(rhs)", "ShapeNotConformable")] ∧
-    Gen.isSquareBody = "{ let shape = self.shape(); shape.nrows() == shape.ncols() }" := by decide
+     ("ensure_multiplication_like_operation_conformable", "is_multiplication_like_operation_conformable(rhs)", "ShapeNotConformable")] := by decide
+-- (the text of `is_square` is no longer compared literally: `C12.square_guards_are_the_source`, T17, proves the
+-- regenerated `is_square` / `ensure_square` equal to the model's)
 
 /-! ### non-vacuity -/
 
